@@ -292,11 +292,17 @@ class Piece:
     label: str = ""      # for spec pieces: unit + where
 
 
+_DISCARD_PAT = r"(?m)^(\s*)_ = "
+
+
 def _apply_rewrites(text: str, rws: List[Rw], unit: str, log: list) -> str:
     # logging never carries semantics for a property: log macros are removed from every body even if a unit does not
     # list R-log (a log line added by an edit must not make the unit leave the verifiable subset)
     if rws is not None and not any(r.sig for r in rws) and not any(r.kind == "log" for r in rws):
         rws = list(rws) + [Rw("", "", count=None, kind="log", why="logging removed (default)")]
+    if rws is not None and not any(r.sig for r in rws) and not any(r.pat == _DISCARD_PAT for r in rws):
+        # `_ = e;` (destructuring assignment, unsupported by Verus) -> `let _ = e;` (same meaning)
+        rws = list(rws) + [Rw(_DISCARD_PAT, r"\1let _ = ", regex=True, count=None, why="`_ = e;` -> `let _ = e;` (default)")]
     for rw in rws:
         if rw.kind in ("err", "log", "attrs", "maperr", "letchain", "dropargs", "fold"):
             if rw.kind == "fold":
